@@ -101,23 +101,53 @@ func rule111(r *core.Run, ctx *oblig.Ctx) bool {
 		if !ctx.Holds(sst, sv, token.LSS, size) {
 			problems = append(problems, "no dominating guard establishes Start < size")
 		}
-		if b := isSizeMinusS(lv); b != nil {
-			if !wrapFree(b) {
-				problems = append(problems, "Length = size-Start is computed where 0 <= Start < size is not established (may wrap)")
+		// Length: recursively through phis, each edge judged with the facts of its own path
+		var lenProblems func(v ssa.Value, at ssa.Instruction, extra []oblig.Fact, d int) []string
+		var direct func(v ssa.Value, at ssa.Instruction, extra []oblig.Fact) []string
+		lenProblems = func(v ssa.Value, at ssa.Instruction, extra []oblig.Fact, d int) []string {
+			if d > 4 {
+				return []string{"Length is computed through too many merges to relate it to the guards"}
 			}
-		} else {
-			if lb, ok := ctx.LowerBound(lv, sst); !ok || lb < 0 {
-				problems = append(problems, "no dominating guard establishes Length >= 0")
+			if b := isSizeMinusS(v); b != nil {
+				if !wrapFree(b) {
+					return []string{"Length = size-Start is computed where 0 <= Start < size is not established (may wrap)"}
+				}
+				return nil
+			}
+			if ph, ok := v.(*ssa.Phi); ok && len(direct(v, at, extra)) > 0 {
+				var out []string
+				for i, e := range ph.Edges {
+					pred := ph.Block().Preds[i]
+					term := pred.Instrs[len(pred.Instrs)-1]
+					var ex []oblig.Fact
+					if ef, ok := ctx.EdgeFact(pred, ph.Block()); ok {
+						ex = append(ex, ef)
+					}
+					out = append(out, lenProblems(e, term, ex, d+1)...)
+				}
+				return out
+			}
+			return direct(v, at, extra)
+		}
+		direct = func(v ssa.Value, at ssa.Instruction, extra []oblig.Fact) []string {
+			var out []string
+			if lb, ok := ctx.LowerBoundWith(v, at, extra); !ok || lb < 0 {
+				// the guard may sit after the merge: also accept facts at the store
+				if lb2, ok2 := ctx.LowerBound(v, sst); !ok2 || lb2 < 0 {
+					out = append(out, "no dominating guard establishes Length >= 0")
+				}
 			}
 			clipped := false
-			for _, f := range ctx.FactsAt(sst) {
+			facts := append(append([]oblig.Fact{}, ctx.FactsAt(at)...), extra...)
+			facts = append(facts, ctx.FactsAt(sst)...)
+			for _, f := range facts {
 				if f.Op != token.LEQ && f.Op != token.GEQ && f.Op != token.LSS && f.Op != token.GTR {
 					continue
 				}
 				a, b, op := f.X, f.Y, f.Op
-				if ctx.Equiv(b, lv) {
+				if ctx.Equiv(b, v) {
 					a, b, op = b, a, flipTok(op)
-				} else if !ctx.Equiv(a, lv) {
+				} else if !ctx.Equiv(a, v) {
 					continue
 				}
 				_ = a
@@ -128,14 +158,16 @@ func rule111(r *core.Run, ctx *oblig.Ctx) bool {
 					if wrapFree(sb) {
 						clipped = true
 					} else {
-						problems = append(problems, "the clip guard compares Length with size-Start computed where it may wrap")
+						out = append(out, "the clip guard compares Length with size-Start computed where it may wrap")
 					}
 				}
 			}
 			if !clipped {
-				problems = append(problems, "no dominating guard establishes Length <= size-Start (a guard on Start+Length can wrap and does not count)")
+				out = append(out, "no dominating guard establishes Length <= size-Start (a guard on Start+Length can wrap and does not count)")
 			}
+			return out
 		}
+		problems = append(problems, lenProblems(lv, sst, nil, 0)...)
 		if len(problems) == 0 {
 			r.Held("R11.1", k, pos(r, ret), "0<=Start<size, 0<=Length<=size-Start established by dominating guards")
 		} else {
